@@ -139,7 +139,7 @@ def c05_streams(run, tier, seed):
                 pad = rng.randrange(0, 6)
                 off = {"start": winstart, "mid": rng.randrange(winstart + 0x400, 0xF000), "end": 0x10000 - pad - 2 - rng.randrange(0, 3)}[place]
                 base = (bank << 16) | off
-                reloc = rng.choice(["none", "none", "rom", "rom0", "ram", "ram-target"])
+                reloc = rng.choice(["none", "none", "rom", "rom0", "ram", "ram-target", "ram-source"])
                 lines = [f"*=0x{base:06x}"]
                 if reloc == "rom":
                     rb = ((bank + 1) << 16) | rng.randrange(winstart + 0x400, 0xF000)
@@ -149,12 +149,17 @@ def c05_streams(run, tier, seed):
                     lines += [".db 1,2,3", "@=0x008000" if rom == "low_rom" else "@=0xc00000"]
                 elif reloc == "ram":
                     lines += [".db 1,2,3", f"@=0x{0x7E0000 + rng.randrange(0x8000):06x}"]
+                elif reloc == "ram-source":
+                    # the branch runs from RAM, its target is a ROM label next to the storage position
+                    lines += ["T:", ".db 1,2,3", f"@=0x{0x7E0000 + rng.randrange(0x8000):06x}"]
                 lines.append("L:")
                 if pad:
                     lines.append(".db " + ", ".join(["0"] * pad))
                 n = pad + 2 + d
                 if reloc == "ram-target":
                     lines.append(f"{mn} 0x7e{rng.randrange(0x10000):04x}")
+                elif reloc == "ram-source":
+                    lines.append(f"{mn} T + {rng.randrange(0, 8)}")
                 else:
                     lines.append(f"{mn} L + {n}" if n >= 0 else f"{mn} L - {-n}")
                 lines.append("after:")
@@ -171,7 +176,7 @@ def c05_streams(run, tier, seed):
         pipeline.oracle_c05(run, s, pr, r)
         # direct statement of the property on this program (independent of the trace wrappers)
         inp = {"src": pr["src"], "rom": rom}
-        if reloc in ("ram", "ram-target"):
+        if reloc in ("ram", "ram-target", "ram-source"):
             if r["status"] == "ok":
                 s.violate(inp, "rejected", "assembled", "a branch whose run address or target lies in RAM-mapped space is encoded")
             continue
